@@ -24,8 +24,27 @@ func ruleNamedLookThrough(c *ctx.Ctx, r *core.Reporter) {
 			if fd.Body == nil || c.IsTestFile(fd.Pos()) {
 				continue
 			}
-			n, nb := 0, 0
+			n, nb, nt := 0, 0, 0
 			ast.Inspect(fd.Body, func(x ast.Node) bool {
+				// the type OF AN EXPRESSION (info.TypeOf(e), fc.typeOf(e)) may be a defined type: asserting it to a
+				// structural type without Underlying() silently takes the "not that kind" path for defined types
+				if ta, ok := x.(*ast.TypeAssertExpr); ok && ta.Type != nil {
+					if st, isStar := ta.Type.(*ast.StarExpr); isStar {
+						if sel, isSel := st.X.(*ast.SelectorExpr); isSel && exprStr(sel.X) == "types" && structuralKinds[sel.Sel.Name] {
+							if call, isCall := ast.Unparen(ta.X).(*ast.CallExpr); isCall {
+								if _, _, cn := callee(p.TypesInfo, call); cn == "TypeOf" || cn == "typeOf" {
+									nt++
+									key := fmt.Sprintf("exprtype:%s|%s#%d:%s", rel, ctx.FuncName(fd), nt, sel.Sel.Name)
+									if why, reviewed := exprTypeAssertReviewed[rel+"|"+ctx.FuncName(fd)+":"+sel.Sel.Name]; reviewed {
+										r.OK(key, c.Pos(ta.Pos()), "reviewed: "+why)
+									} else {
+										r.Violation(key, c.Pos(ta.Pos()), fmt.Sprintf("`%s` asserts the type of an expression to *types.%s without Underlying(): a defined type with that underlying type takes the other path", exprStr(ta), sel.Sel.Name))
+									}
+								}
+							}
+						}
+					}
+				}
 				// X.(*types.Basic) and `switch X.(type) { case *types.Basic: … }`
 				var subject ast.Expr
 				switch y := x.(type) {
@@ -140,4 +159,12 @@ func isUnderlyingValue(info *types.Info, fd *ast.FuncDecl, e ast.Expr, depth int
 		return false, how
 	}
 	return res, how
+}
+
+var structuralKinds = map[string]bool{"Signature": true, "Slice": true, "Array": true, "Struct": true, "Map": true, "Pointer": true, "Chan": true, "Interface": true, "Basic": true}
+
+// assertions on an expression's type that are right without Underlying()
+var exprTypeAssertReviewed = map[string]string{
+	"compiler|funcContext.literalFuncContext:Signature": "the type of a function literal is always an unnamed signature",
+	"compiler|funcContext.translateConversion:Pointer":  "syscall-only special case for a conversion from an unnamed pointer type to uintptr",
 }
